@@ -5,7 +5,8 @@ from harness.sexp import A, dumps, loads_all
 PID = 'C19'
 PROPS_MODULE = 'SympdeModel.Props.C19'
 RULE = ('random programs over differential forms (forms of every degree 0..n, n in 1..6, sums, constant '
-        'multiples by integers/rationals/Constants, d, delta, hodge, wedge, nesting depth <= 5/7) evaluated '
+        'multiples by integers/rationals/Constants from a small shared pool and their powers (c*c = c**2, c**3, '
+        'c**-1, sqrt(c), (2*c)**2, (c*e)**3, b**c), d, delta, hodge, wedge, nesting depth <= 5/7) evaluated '
         'bottom-up with the real API; every operator application (op, canonical argument tree) is one case; '
         'non-trivial = the argument is a sum, a product or hits a short-cut (i.e. not merely wrapped in a node); '
         'distinct by serialised (op, argument)')
@@ -100,22 +101,45 @@ class Gen:
     def __init__(self, rng, n, maxdepth):
         self.rng, self.n, self.maxdepth = rng, n, maxdepth
 
-    def fresh(self):
-        self.k = getattr(self, 'k', 0) + 1
-        return 'c%d' % self.k
+    POOL = ('c1', 'c2', 'c3')
 
-    def coef(self):
-        # every Constant is fresh: a repeated one would produce the power c**2, which the
-        # implementation does not recognise as a coefficient (known finding C19-coef-pow)
+    def fresh(self):
+        """a Constant name never used elsewhere (in this generator)"""
+        self.k = getattr(self, 'k', 0) + 1
+        return 'b%d' % self.k
+
+    def cst(self):
+        """mostly a Constant of a small pool shared by all generators: a repeated one meets itself in
+        products, which sympy turns into powers (c1*(c1*u) = c1**2*u, the shape of the former finding
+        C19-coef-pow); sometimes a fresh one"""
+        return self.rng.choice(self.POOL) if self.rng.random() < 0.75 else self.fresh()
+
+    def coef(self, depth=0):
+        """constant coefficient.  Exponents of pool Constants are numbers, so that products of powers of
+        one Constant stay a Pow of (Constant, number) — c**e * c = c**(e + 1) has a sum as exponent, which
+        neither sympde.calculus.core.is_constant nor the exterior calculus calls a constant; a Constant
+        exponent is only given to a fresh base, which cannot merge with anything"""
         r = self.rng
         k = r.random()
-        if k < 0.35:
+        if k < 0.25:
             return ('int', r.choice([-3, -2, -1, 2, 3, 5]))
-        if k < 0.5:
+        if k < 0.35:
             return ('rat', r.choice([1, -1, 3, 5]), r.choice([2, 3, 7]))
-        if k < 0.85:
-            return ('cst', self.fresh())
-        return ('cc', self.fresh(), r.choice([2, -1, self.fresh()]))
+        if k < 0.55:
+            return ('cst', self.cst())
+        if k < 0.67:      # product of two: c*2, c*e, c*c (= c**2)
+            a = self.cst()
+            return ('cc', a, r.choice([2, -1, self.cst(), a]))
+        if k < 0.85:      # explicit power of a Constant: c**2, c**3, c**-1, c**-2, sqrt(c), c**(3/2)
+            return ('pow', self.cst(), r.choice([('int', 2), ('int', 2), ('int', 3), ('int', -1), ('int', -2),
+                                                  ('rat', 1, 2), ('rat', 3, 2)]))
+        if k < 0.9:       # fresh base, Constant exponent: b**c
+            return ('pow', self.fresh(), ('cst', self.cst()))
+        if depth < 1:     # power of a composite coefficient: (2*c)**2 = 4*c**2, (c*e)**3 = c**3*e**3
+            inner = self.coef(depth + 1)
+            if not (inner[0] == 'pow' and inner[2][0] == 'cst'):   # (b**c)**2 = b**(2*c): product as exponent
+                return ('npow', inner, r.choice([2, 2, 3]))
+        return ('cst', self.cst())
 
     def form(self, k=None):
         r = self.rng
@@ -175,6 +199,10 @@ class Runner:
             return m['Rational'](c[1], c[2])
         if c[0] == 'cst':
             return m['Constant'](c[1])
+        if c[0] == 'pow':
+            return m['Constant'](c[1]) ** self.coef(c[2])
+        if c[0] == 'npow':
+            return self.coef(c[1]) ** c[2]
         b = m['Constant'](c[2]) if isinstance(c[2], str) else m['Integer'](c[2])
         return m['Constant'](c[1]) * b
 
@@ -229,6 +257,20 @@ def degree(p, n):
     return r if 0 <= r <= 6 else 'refused'
 
 
+def coef_str(c):
+    if c[0] == 'int':
+        return str(c[1])
+    if c[0] == 'rat':
+        return '(%d/%d)' % (c[1], c[2])
+    if c[0] == 'cst':
+        return c[1]
+    if c[0] == 'pow':
+        return '%s**%s' % (c[1], coef_str(c[2]))
+    if c[0] == 'npow':
+        return '(%s)**%d' % (coef_str(c[1]), c[2])
+    return '%s*%s' % (c[1], c[2])
+
+
 def prog_str(p):
     h = p[0]
     if h == 'form':
@@ -236,7 +278,7 @@ def prog_str(p):
     if h == 'add':
         return '(' + ' + '.join(prog_str(a) for a in p[1]) + ')'
     if h == 'cmul':
-        return '%s*%s' % ('*'.join(str(x) for x in p[1][1:]), prog_str(p[2]))
+        return '%s*%s' % (coef_str(p[1]), prog_str(p[2]))
     if h == 'wedge':
         return 'wedge(%s, %s)' % (prog_str(p[1]), prog_str(p[2]))
     return '%s(%s)' % (h, prog_str(p[1]))
@@ -294,6 +336,8 @@ def correspondence(ctx):
             c.count('op:' + op)
             head = str(sargs[0][0])
             c.count('arg:' + head)
+            if '(other "Pow"' in line:
+                c.count('arg-has-coef-power')
             if not out.startswith('ok '):
                 c.disagreements.append({'input': line, 'impl': str(res), 'model': out, 'note': 'model refused'})
                 continue
@@ -369,7 +413,9 @@ def deg_value(v, n, m):
             return 'refused'
         return ds.pop()
     elif isinstance(v, Mul):
-        vs = [a for a in v.args if not (a.is_number)]
+        # the spec's own notion of a constant factor: it contains no differential form at all
+        # (numbers, Constants, any power / function of those) — independent of the registry test
+        vs = [a for a in v.args if a.atoms(m['DifferentialForm'])]
         if len(vs) != 1:
             return None
         return deg_value(vs[0], n, m)
@@ -401,14 +447,45 @@ def oracle(ctx, factor, seeds):
         (3, ('cmul', ('cst', 'c'), ('add', [('form', 'u1_3', 1), ('form', 'w1_3', 1)]))),
         (2, ('hodge', ('cmul', ('rat', 1, 2), ('form', 'u1_2', 1)))),
     ]
+    fixed += [  # shapes of the fixed finding C19-coef-pow: coefficients that are powers of Constants
+        (3, ('cmul', ('cst', 'c'), ('cmul', ('cst', 'c'), ('form', 'u1_3', 1)))),
+        (3, ('cmul', ('pow', 'c', ('int', 2)), ('add', [('form', 'u1_3', 1), ('form', 'w1_3', 1)]))),
+        (3, ('d', ('cmul', ('pow', 'c', ('int', 3)), ('form', 'u1_3', 1)))),
+        (2, ('hodge', ('cmul', ('npow', ('cc', 'c', 2), 2), ('form', 'u1_2', 1)))),
+        (3, ('add', [('cmul', ('pow', 'c', ('int', 2)), ('d', ('form', 'u1_3', 1))),
+                     ('cmul', ('pow', 'c', ('int', 2)), ('form', 'w1_3', 1))])),
+        (4, ('wedge', ('cmul', ('pow', 'c', ('int', -1)), ('form', 'u1_4', 1)),
+             ('cmul', ('pow', 'c', ('rat', 1, 2)), ('form', 'w2_4', 2)))),
+    ]
     progs = list(fixed)
-    # witness of the open finding C19-coef-pow (a power of a Constant is not recognised as a coefficient)
+    # witness of the finding C19-coef-pow (fixed by 5022685: a power of a Constant was not recognised as
+    # a coefficient); kept under its key, so the violation is reported if the behaviour returns
     c = m['Constant']('c')
     u13 = m['DifferentialForm']('u1_3', 1, 3)
+    w13 = m['DifferentialForm']('w1_3', 1, 3)
+    t33 = m['DifferentialForm']('t3_3', 3, 3)
+    z03 = m['DifferentialForm']('z0_3', 0, 3)
     o.evaluations += 1
+    o.count('witness:coef-pow')
     if H(H(c * (c * u13))) != c ** 2 * u13:
         o.fail('coef-pow:hodge(hodge(c*(c*u1_3)))', 'hodge(hodge(c**2*u)) stays unevaluated: a power of a Constant is not recognised as a constant coefficient (same for d/delta linearity)',
                got=str(H(H(c * (c * u13)))))
+    for key, got, want in (
+            ('coef-pow:d(c**2*(u+w))', lambda: D(c ** 2 * (u13 + w13)), c ** 2 * (D(u13) + D(w13))),
+            ('coef-pow:delta(c**2*(u+w))', lambda: DL(c ** 2 * (u13 + w13)), c ** 2 * (DL(u13) + DL(w13))),
+            ('coef-pow:hodge(c**2*(u+w))', lambda: H(c ** 2 * (u13 + w13)), c ** 2 * (H(u13) + H(w13))),
+            ('coef-pow:d(c**2*top)', lambda: D(c ** 2 * t33), 0),
+            ('coef-pow:delta(c**2*z0)', lambda: DL(c ** 2 * z03), 0),
+            ('coef-pow:wedge(c**2*u,c**3*w)', lambda: W(c ** 2 * u13, c ** 3 * w13), c ** 5 * W(u13, w13, evaluate=False)),
+            ('coef-pow:infer(c**2*u)', lambda: m['infere_type'](c ** 2 * u13).index, 1)):
+        o.evaluations += 1
+        o.count('witness:coef-pow')
+        try:
+            g_ = got()
+        except Exception as e:
+            g_ = type(e).__name__
+        if g_ != want:
+            o.fail(key, '%s: got %s, expected %s (a power of a Constant is a constant coefficient)' % (key, g_, want), got=str(g_))
     for i in range(nprog):
         n = ctx.rng.randint(1, 6)
         progs.append((n, Gen(ctx.rng, n, maxdepth).prog()))
@@ -423,6 +500,9 @@ def oracle(ctx, factor, seeds):
             continue
         o.evaluations += 1
         ps = prog_str(p)
+        from sympy import Pow, sympify
+        if sympify(v).atoms(Pow):
+            o.count('value-has-coef-power')
         if len(o.samples) < 4:
             o.samples.append({'dim': n, 'program': ps, 'value': str(v)})
         # nilpotency: literal zero
@@ -504,7 +584,6 @@ def oracle(ctx, factor, seeds):
 
 
 def replay(ctx, path):
-    import json
-    d = json.load(open(path))
-    print(json.dumps(d, indent=1)[:4000])
-    return 0
+    import sys
+    from harness.common import generic_replay
+    return generic_replay(sys.modules[__name__], ctx, path)
